@@ -465,6 +465,15 @@ def hist_items(tier):
         out.append((sp, {"rule": "TSLACK", "max_time": F.seq_bound(sp) + 6}))
     for sp in F.scale_specs():
         out.append((sp, {"rule": "TSLACK", "max_time": F.seq_bound(sp) + 10}))
+    from . import c15 as _c15
+
+    for sp, o in _c15.items("quick"):
+        if sp.get("workplaces") and any(wp.get("inputs") for wp in sp["workplaces"]) and not o.get("backward") and not o.get("unit_time") and not o.get("absence"):
+            out.append((sp, o))  # conveyor layouts (what a backward run does to the workplace links must be undone)
+    from . import c13 as _c13
+
+    for sp in [s_ for s_ in _c13.competing_specs("quick") if len(s_.get("workplaces", [])) == 4 and s_["workplaces"][2].get("name") == "WELD1"][::3]:
+        out.append((sp, {"rule": "TSLACK", "max_time": F.seq_bound(sp) + 8}))
     return out
 
 
